@@ -20,6 +20,11 @@ import os, re, sys, shutil, filecmp, json
 HERE = os.path.dirname(os.path.abspath(__file__))
 
 
+REPR_U8 = {
+    'biscuit-auth/src/datalog/expression.rs': ['+Op', 'StackElem'],
+}
+
+
 class AnchorMissing(Exception):
     pass
 
@@ -91,6 +96,16 @@ def transform_tree(repo, native=False):
     if s is None or anchor not in s:
         raise AnchorMissing('Origin.inner anchor not found in datalog/origin.rs')
     texts[rel] = s.replace(anchor, 'pub(crate) inner: crate::vstd::BitSet,')
+    # explicit enum tags (layout only): niche-encoded discriminants read back from the heap are not
+    # constant-folded by the symbolic executor; `#[repr(u8)]` gives every value its own tag byte
+    for rel, names in REPR_U8.items():
+        s = texts.get(rel)
+        for n in names:
+            a = '\n%senum %s {' % ('pub ' if n[0] == '+' else '', n.lstrip('+'))
+            if s is None or s.count(a) != 1:
+                raise AnchorMissing('enum %s not found exactly once in %s' % (n, rel))
+            s = s.replace(a, '\n#[cfg_attr(kani, repr(u8))]' + a)
+        texts[rel] = s
     # lib.rs: vstd + crate-level harness support
     rel = 'biscuit-auth/src/lib.rs'
     texts[rel] += '\n#[doc(hidden)]\npub mod vstd;\n'
